@@ -76,3 +76,28 @@ MINIMA = {
     'py': {'chain_writers': 5, 'sinks': 3, 'iterators': 4, 'aggregators': 10, 'joiners': 3},
     'js': {'chain_writers': 5, 'sinks': 2, 'iterators': 2, 'aggregators': 10, 'joiners': 3},
 }
+
+
+def writer_kind(c):
+    """role of a chain writer class: 'top' / 'sort' / 'uniq' / 'ucnt' / 'agg' / None - by what its constructor takes and keeps (the distinguishing
+    parameter first: a sorting writer may well keep its `records`), then by its name"""
+    ms = methods(c)
+    init = ms.get('__init__')
+    attrs = self_attrs_assigned(init) if init is not None else set()
+    params = {a.arg for a in init.args.args} if init is not None else set()
+    name = c.name.lower()
+    if 'top_count' in attrs | params:
+        return 'top'
+    if 'reverse_sort' in attrs | params or ('sort' in name and 'write' in ms):
+        return 'sort'
+    if 'aggregation_keys' in attrs or 'aggregat' in name:
+        return 'agg'
+    if 'uniqcount' in name or ('count' in name and 'uniq' in name):
+        return 'ucnt'
+    if 'seen' in attrs:
+        return 'uniq'
+    if 'records' in attrs or 'counters' in attrs:
+        return 'ucnt'
+    if 'uniq' in name:
+        return 'uniq'
+    return None
